@@ -117,7 +117,7 @@ fn main() {
     let lang = accepted_language(&['0', '1', '2', 'a', '-', '.', '+', 'v'], lb);
     // white-space symbols are edit symbols too (SemVer has none; a trimming front end would accept them): edits that
     // introduce one are also put through the check command
-    let edit_syms: Vec<char> = vec!['0', '1', 'a', 'A', '9', '-', '.', '+', 'v', 'V', '٣', 'é', '\u{212A}', 'ſ', 'İ', ' ', '\n', '\t', '\r', '\u{a0}'];
+    let edit_syms: Vec<char> = vec!['0', '1', 'a', 'A', '9', '-', '.', '+', 'v', 'V', '٣', 'é', '\u{212A}', 'ſ', 'İ', '_', '^', '[', ']', '\\', '`', '@', '/', ':', '~', '!', '*', '{', '}', '|', '=', ',', ';', '\'', '"', '#', '$', '%', '&', '(', ')', '<', '>', '?', 'z', 'Z', 'g', 'G', ' ', '\n', '\t', '\r', '\u{a0}'];
     use rayon::prelude::*;
     let sb = lang
         .par_iter()
